@@ -298,3 +298,139 @@ def unit_memory_store(opts):
     if only:
         cases = [c for c in cases if c.method == only]
     return run_cases(f'memory_store.{only}' if only else 'memory_store', cases, opts)
+
+
+# ---------------------------------------------------------------------------------------------- allocator, delegation, topology
+class NewIndexCase(FnCase):
+    name = 'new_index'
+
+    def setup(self, eng, p):
+        self.eng = eng
+        self.nxt = Int('next_index'); self.fa = Array('free_a', IntSort(), Val); self.fn_ = Int('free_n')
+        self.free = eng.new_obj(p, 'arr', ('arr', self.fa, self.fn_, 'int', 'Q'))
+        self.in_use = Array('in_use', IntSort(), BoolSort())
+        return eng.world.closure_of(MOD, 'new_index'), [SInt(self.nxt), self.free], {}
+
+    def requires(self):
+        j, a, b = Ints('rj ra rb')
+        F = lambda t: V.i(Select(self.fa, t))
+        return [self.nxt >= 0, self.fn_ >= 0, ForAll([j], Implies(Select(self.in_use, j), And(j >= 0, j < self.nxt))),
+                ForAll([a], Implies(And(a >= 0, a < self.fn_), And(F(a) >= 0, F(a) < self.nxt, Not(Select(self.in_use, F(a)))))),
+                ForAll([a, b], Implies(And(a >= 0, a < b, b < self.fn_), F(a) != F(b)))]
+
+    def ensures(self, q, ret):
+        e = self.eng
+        if not (isinstance(ret, tuple) and len(ret) == 3):
+            return [('returns_triple', BoolVal(False))]
+        idx, nxt = e.to_int(q, ret[0]), e.to_int(q, ret[1])
+        fr = q.heap[ret[2].oid]
+        a, j = Ints('ea ej')
+        in2 = Store(self.in_use, idx, BoolVal(True))
+        F2 = lambda t: V.i(Select(fr[1], t))
+        return [('index_not_in_use', And(idx >= 0, Not(Select(self.in_use, idx)))),
+                ('allocator_invariant', And(nxt >= 0, fr[2] >= 0, ForAll([j], Implies(Select(in2, j), And(j >= 0, j < nxt))),
+                                            ForAll([a], Implies(And(a >= 0, a < fr[2]), And(F2(a) >= 0, F2(a) < nxt, Not(Select(in2, F2(a))))))))]
+
+
+class DelIndexCase(FnCase):
+    name = 'del_index'
+
+    def setup(self, eng, p):
+        self.eng = eng
+        self.fa = Array('free_a', IntSort(), Val); self.fn_ = Int('free_n'); self.idx = Int('index')
+        self.free = eng.new_obj(p, 'arr', ('arr', self.fa, self.fn_, 'int', 'Q'))
+        return eng.world.closure_of(MOD, 'del_index'), [self.free, SInt(self.idx)], {}
+
+    def requires(self):
+        return [self.fn_ >= 0, self.idx >= 0]
+
+    def ensures(self, q, ret):
+        fr = q.heap[ret.oid] if isinstance(ret, Ref) else None
+        if fr is None:
+            return [('returns_free_list', BoolVal(False))]
+        j = Int('dj')
+        return [('index_released', And(fr[2] == self.fn_ + 1, V.i(Select(fr[1], self.fn_)) == self.idx,
+                                       ForAll([j], Implies(And(j >= 0, j < self.fn_), Select(fr[1], j) == Select(self.fa, j)))))]
+
+
+class DelegationCase(FnCase):
+    """Store.X(state, key, ...) forwards to states[state].X(key, ...); StoreManager.X forwards to the active Store"""
+
+    def __init__(self, cls, method, target, nargs):
+        self.cls = cls; self.method = method; self.target = target; self.nargs = nargs
+        self.name = f'{cls}.{method}'
+
+    def setup(self, eng, p):
+        self.eng = eng
+        smod = 'rxsci.state.store'
+        self.state = Int('state'); self.key = Const('key', Key); self.extra = [Const(f'arg{i}', Val) for i in range(self.nargs)]
+        if self.cls == 'Store':
+            self.inner = [Host('opaque', name=f'memstore{i}') for i in range(3)]
+            lst = eng.new_list(p, self.inner)
+            self.obj = eng.new_obj(p, 'obj', ('obj', {'states': lst}, (smod, 'Store')))
+        else:
+            self.inner = [Host('opaque', name='active_store')]
+            lst = eng.new_list(p, self.inner)
+            self.obj = eng.new_obj(p, 'obj', ('obj', {'states': lst, 'active_partition': 0, 'topology': Host('opaque', name='topology'), 'partitions': None,
+                                                      'create_store': Host('opaque', name='factory')}, (smod, 'StoreManager')))
+        m = eng.world.class_method((smod, self.cls), self.method)
+        # Store: the state id is concrete here (python list indexing); checked for the middle one of three stores
+        st = 1 if self.cls == 'Store' else SInt(self.state)
+        return m, [self.obj, st, SKey(self.key)] + [SVal(x) for x in self.extra], {}
+
+    def requires(self):
+        return [self.state == 1] if self.cls == 'Store' else []
+
+    def on_exception(self, q):
+        return BoolVal(isinstance(q.exc, ExcV) and q.exc.cls == 'LibError')      # an exception of the callee propagates unchanged
+
+    def ensures(self, q, ret):
+        e = self.eng
+        calls = [c for c in q.calls]
+        if len(calls) != 1:
+            return [('exactly_one_delegated_call', BoolVal(False))]
+        c = calls[0]
+        ok_name = c[0].endswith('.' + self.target)
+        if self.cls == 'Store':
+            which = [h for h in self.inner if c[0].startswith(h.name + '.')]
+            idx_ok = Or(*[And(self.state == i, BoolVal(bool(which) and which[0] is self.inner[i])) for i in range(3)])
+            exp_args = [V.VKey(self.key)] + self.extra
+        else:
+            idx_ok = BoolVal(c[0].startswith('active_store.'))
+            exp_args = [V.VInt(self.state), V.VKey(self.key)] + self.extra
+        args_ok = And(*[a == b for a, b in zip(c[1], exp_args)]) if len(c[1]) == len(exp_args) else BoolVal(False)
+        res_ok = BoolVal(isinstance(ret, SVal) and 'libres_' + self.target in str(ret.t))
+        return [('delegates_to_same_method', BoolVal(ok_name)), ('on_the_addressed_store', idx_ok), ('arguments_unchanged', args_ok), ('returns_its_result', res_ok)]
+
+
+class TopologyCase(FnCase):
+    name = 'StateTopology.create_state'
+
+    def setup(self, eng, p):
+        self.eng = eng
+        tmod = 'rxsci.state.state_topology'
+        self.n = Int('n_states')
+        self.states = eng.new_obj(p, 'arr', ('arr', Array('states_a', IntSort(), Val), self.n, 'val', None))
+        self.ids = eng.new_obj(p, 'dict', ('dict', K(Val, BoolVal(False)), K(Val, V.VInt(IntVal(0))), Empty(ValSeq)))
+        self.obj = eng.new_obj(p, 'obj', ('obj', {'states': self.states, 'ids': self.ids}, (tmod, 'StateTopology')))
+        m = eng.world.class_method((tmod, 'StateTopology'), 'create_state')
+        return m, [self.obj, SVal(Const('name', Val)), SVal(Const('dtype', Val))], {}
+
+    def requires(self):
+        return [self.n >= 0]
+
+    def ensures(self, q, ret):
+        st = q.heap[self.states.oid]
+        j = Int('tj')
+        return [('returns_fresh_id', self.eng.to_int(q, ret) == self.n),       # ids are positions: distinct for distinct calls
+                ('appends_one_state', st[2] == self.n + 1),
+                ('earlier_states_untouched', ForAll([j], Implies(And(j >= 0, j < self.n), Select(st[1], j) == Select(Array('states_a', IntSort(), Val), j))))]
+
+
+def unit_store_misc(opts):
+    cases = [NewIndexCase(), DelIndexCase(), TopologyCase()]
+    for m, t, n in (('add_key', 'add_key', 0), ('del_key', 'del_key', 0), ('set', 'set', 1), ('get', 'get', 0), ('add_map', 'add_map', 1), ('get_map', 'get_map', 1), ('del_map', 'del_map', 1)):
+        cases.append(DelegationCase('Store', m, t, n))
+    for m, t, n in (('add_key', 'add_key', 0), ('del_key', 'del_key', 0), ('set_state', 'set', 1), ('get_state', 'get', 0), ('add_map', 'add_map', 1), ('get_map', 'get_map', 1), ('del_map', 'del_map', 1)):
+        cases.append(DelegationCase('StoreManager', m, t, n))
+    return run_cases('store_misc', cases, opts)
